@@ -363,7 +363,8 @@ def _sock_scenario(draw, gen: int):
     # exists (back-off), so that several reconnection attempts / retry delays overlap
     resets = sorted(draw(st.lists(st.integers(1, 12 * 16).map(lambda x: x / 16.0), max_size=3)))
     return {"mode": "sock", "gen": gen, "script": script, "sends": sorted(sends, key=lambda s: s[0]), "losses": sorted(losses),
-            "faults": sorted(faults, key=lambda f: f[0]), "resets": resets, "close_latency": draw(st.sampled_from([0.0, 0.0, 0.125, 1.0]))}
+            "faults": sorted(faults, key=lambda f: f[0]), "resets": resets,
+            "loss_kinds": [draw(st.sampled_from(["reset", "eof", "garbage"])) for _ in losses], "close_latency": draw(st.sampled_from([0.0, 0.0, 0.125, 1.0]))}
 
 
 def _mk_sock(case):
@@ -377,12 +378,17 @@ def _mk_sock(case):
         t = rig.loop.spawn(rig.sock.send(sockops.build(case["gen"], kp[0], kp[1]), sockops.policy_of(pol)))
         t.add_done_callback(lambda t: t.cancelled() or t.exception())
 
-    def lose(k):
+    def lose(k, how="reset"):
         tr = rig.net.current
         if tr is not None and tr.alive:
             for _ in range(k):
                 rig.net.script.append(("refuse", 0.0))
-            tr.peer_reset()
+            if how == "eof":
+                tr.peer_eof()                       # the client closes its side itself (close latency applies)
+            elif how == "garbage":
+                tr.feed(b"\x00\x01\x02garbage!")   # framing violated: the client resets a healthy stream
+            else:
+                tr.peer_reset()
     def arm(n):
         tr = rig.net.current
         if tr is not None and tr.alive:
@@ -396,8 +402,9 @@ def _mk_sock(case):
         handles.append(rig.loop.call_at(t, arm, n))
     for t, kp, pol in case["sends"]:
         handles.append(rig.loop.call_at(t, send, kp, pol))
-    for t, k in case["losses"]:
-        handles.append(rig.loop.call_at(t, lose, k))
+    kinds = case.get("loss_kinds") or []
+    for i, (t, k) in enumerate(case["losses"]):
+        handles.append(rig.loop.call_at(t, lose, k, kinds[i] if i < len(kinds) else "reset"))
     return rig, handles
 
 
@@ -466,6 +473,14 @@ def check_sock(case, when, stats: Stats | None):
             if stale:
                 bad("stale-message-after-reopen", f"a re-opened socket transmitted {len(stale)} bytes nobody submitted after the "
                                                   f"re-open ({stale.hex()[:60]}): messages held at close() survived it")
+            # ... and it heals like a fresh one: the console drops the connection, the client reconnects
+            tr_new = rig.net.current
+            tr_new.peer_eof()
+            rig.loop.advance(3.0)
+            cur = rig.net.current
+            if cur is None or cur is tr_new or not cur.alive or not rig.sock.is_connected:
+                bad("reopened-does-not-heal", "a re-opened socket did not reconnect within 3 s after the console closed its connection "
+                                              "(a freshly created socket does)")
             o2 = rig.loop.call(rig.sock.close())
             if o2[0] != "ok":
                 bad("close-failed", f"second close(): {o2!r}")
@@ -499,12 +514,17 @@ def _mk_sock_on(rig, case):
         t = rig.loop.spawn(rig.sock.send(sockops.build(case["gen"], kp[0], kp[1]), sockops.policy_of(pol)))
         t.add_done_callback(lambda t: t.cancelled() or t.exception())
 
-    def lose(k):
+    def lose(k, how="reset"):
         tr = rig.net.current
         if tr is not None and tr.alive:
             for _ in range(k):
                 rig.net.script.append(("refuse", 0.0))
-            tr.peer_reset()
+            if how == "eof":
+                tr.peer_eof()                       # the client closes its side itself (close latency applies)
+            elif how == "garbage":
+                tr.feed(b"\x00\x01\x02garbage!")   # framing violated: the client resets a healthy stream
+            else:
+                tr.peer_reset()
     def arm(n):
         tr = rig.net.current
         if tr is not None and tr.alive:
@@ -518,8 +538,9 @@ def _mk_sock_on(rig, case):
         handles.append(rig.loop.call_at(t, arm, n))
     for t, kp, pol in case["sends"]:
         handles.append(rig.loop.call_at(t, send, kp, pol))
-    for t, k in case["losses"]:
-        handles.append(rig.loop.call_at(t, lose, k))
+    kinds = case.get("loss_kinds") or []
+    for i, (t, k) in enumerate(case["losses"]):
+        handles.append(rig.loop.call_at(t, lose, k, kinds[i] if i < len(kinds) else "reset"))
     return rig, handles
 
 
